@@ -14,7 +14,13 @@ From GV Require Import Base.Str.
    a message type is known by its package and short name (the code looks at message_pb.name only). *)
 Inductive ftype := TStr | TInt | TFloat | TBool | TBytes | TEnum | TMsg (pkg name : string).
 
-Record field := mkField { fname : string; fty : ftype; frep : bool; fmap : bool }.
+(* How a field is declared with respect to presence: plain, proto3 `optional` (a synthetic one-member oneof, so
+   Field.oneof is set for it too), or a member of a real oneof.  Method.paged_result_field does not look at it: a
+   method whose page_token / next_page_token / page_size / max_results is proto3-optional (the Compute shape) or sits
+   in a real oneof is paginated like any other, and the property's sentence does not exclude either. *)
+Inductive presence := PPlain | POptional | POneof (group : string).
+
+Record field := mkField { fname : string; fty : ftype; frep : bool; fmap : bool; fpres : presence }.
 Definition shape := list field.
 
 (* source.fields.get(name): protoc guarantees distinct field names, see [uniq] *)
@@ -57,6 +63,10 @@ Definition paged_result_field (req resp : shape) : option field :=
       if has_page_size req || has_max_results req then first_repeated resp else None
     end
   end.
+
+(* the same shape with every field declared plain *)
+Definition plain (f : field) : field := mkField (fname f) (fty f) (frep f) (fmap f) PPlain.
+Definition erase_presence (s : shape) : shape := map plain s.
 
 Definition is_paged (req resp : shape) : bool :=
   match paged_result_field req resp with Some _ => true | None => false end.
